@@ -480,6 +480,14 @@ def check_case(op, args):
         if bad(again, req) or bad(Mu, M) or bad(np.diag(Du.diag), np.diag(a)):
             return ("the operation changed its operands: the same product computed a second time gives " + str(np.asarray(again).tolist()), req.tolist())
         return None
+    if op in ("muleye:diag", "muleye:dense"):
+        # the product with the vector of ones (the row sums), whatever the storage and the shape (rectangular blocks: up x down streams)
+        from smrt.rtsolver import dort
+        M = np.array(args["M"], dtype=float)
+        x = D(M.copy()) if op == "muleye:diag" else M.copy()
+        got = np.asarray(dort.muleye(x), dtype=float)
+        req = (np.diag(M) if op == "muleye:diag" else M) @ np.ones((len(M) if op == "muleye:diag" else M.shape[1]))
+        return (got.tolist(), req.tolist()) if bad(got, req) else None
     if op in ("matrix+matrix", "matrix-matrix"):
         a = L.smrt_matrix(np.array(args["a"]), args["ka"]) if args["ka"] != "0" else L.smrt_matrix(0)
         b = L.smrt_matrix(np.array(args["b"]), args["kb"]) if args["kb"] != "0" else L.smrt_matrix(0)
@@ -617,6 +625,13 @@ def oracle(ctx, hints, effort):
                 if r is not None:
                     findings.append(Finding("smrt_diag:" + op, f"smrt_diag {op} differs from the dense computation",
                                             {"op": op, **{k: np.asarray(v).tolist() for k, v in args.items()}}, r[0], r[1]))
+    for n, m in ((1, 1), (2, 2), (3, 3), (2, 3), (3, 2), (4, 1), (1, 4), (5, 3)):
+        for op, args in [("muleye:dense", dict(M=rng.uniform(-2, 2, (n, m)).round(3))), ("muleye:diag", dict(M=rng.uniform(-2, 2, n).round(3)))]:
+            evals += 1
+            r = check_case(op, args)
+            if r is not None:
+                findings.append(Finding("dort:muleye", f"dort.muleye of a {n} x {m} {'dense' if op.endswith('dense') else 'diagonal'} matrix is not its product with the vector of ones",
+                                        {"op": op, "M": np.asarray(args["M"]).tolist()}, r[0], r[1]))
     shapes = {"diagonal4": lambda p, n, k: (p, n), "diagonal5": lambda p, n, k: (p, k, n),
               "dense4": lambda p, n, k: (p, p, n, n), "dense5": lambda p, n, k: (p, p, k, n, n)}
     for npol in (2, 3):
